@@ -21,7 +21,8 @@ variable {K : Type} [Field K] [LinearOrder K] [IsStrictOrderedRing K] [Transc K]
 
 /-- `compute_join_side_positions_fixed_width` on a fresh endpoint, Bevel or Miter join, no fold -/
 theorem joinSidesFw_closed (ix : Lyon.StrokeQuad.Ix K) (prev join next : EP K) (ml hw : K)
-    (hlj : join.lineJoin = .bevel ∨ join.lineJoin = .miter)
+    (hlj : join.lineJoin = .bevel ∨ join.lineJoin = .miter
+      ∨ (join.lineJoin = .miterClip ∧ (fwGeo prev join next ml hw).unclipped = true))
     (hps : join.pos.single = none) (hns : join.neg.single = none)
     (hfold : (fwGeo prev join next ml hw).fold = false) :
     (joinSidesFw ix prev join next ml hw).pos.prev = join.position + (perp (fwGeo prev join next ml hw).pt).smul hw
@@ -40,7 +41,10 @@ theorem joinSidesFw_closed (ix : Lyon.StrokeQuad.Ix K) (prev join next : EP K) (
           = if (fwGeo prev join next ml hw).unclipped then some (join.position + (fwGeo prev join next ml hw).normal.smul hw) else none) := by
   unfold joinSidesFw frontFix
   simp only [hfold, Bool.false_eq_true, if_false]
-  rcases hlj with h | h <;> (rw [h]; split_ifs <;> simp_all)
+  rcases hlj with h | h | ⟨h, hu⟩
+  · rw [h]; split_ifs <;> simp_all
+  · rw [h]; split_ifs <;> simp_all
+  · rw [h, hu]; simp
 
 /-- `perp t1 = c·perp t0 − s·t0`, `t1 = c·t0 + s·perp t0` for a unit `t0` -/
 theorem rot_of_unit (t0 t1 : P K) (h0 : t0.sqLen = 1) :
@@ -132,6 +136,12 @@ noncomputable def eT (pt : Nat → P K) (k : Nat) : P K := (pt (k + 1) - pt k).s
 noncomputable def jtau (pt : Nat → P K) (k : Nat) : K :=
   (eT pt k).cross (eT pt (k + 1)) / (1 + (eT pt k).dot (eT pt (k + 1)))
 
+/-- the miter of the join between `p, j, n` is within the miter limit (`!miter_limit_is_exceeded`: the model's
+own test; only meaningful for `Miter` / `MiterClip`) -/
+def keptAt (e : Env K) (p j n : P K) : Prop :=
+  (fwGeo (EP.mk' p e.hwFw nan e.o.join (.endpoint 0) false) (EP.mk' j e.hwFw nan e.o.join (.endpoint 0) false)
+    (EP.mk' n e.hwFw nan e.o.join (.endpoint 0) false) e.o.miterLimit e.hwFw).unclipped = true
+
 /-- the side points of the join at `pt (k+1)` in closed form; `ps` / `ns`: the positive / negative side
 has a single vertex -/
 structure JClosed (e : Env K) (pt : Nat → P K) (k : Nat) (ps ns : Bool) : Prop where
@@ -154,9 +164,11 @@ structure JClosed (e : Env K) (pt : Nat → P K) (k : Nat) (ps ns : Bool) : Prop
   sNegNext : sNext (jEP e pt (k + 1)).neg
     = pt (k + 1) - (perp (eT pt (k + 1))).smul e.hwFw + (eT pt (k + 1)).smul (e.hwFw * (if ns then -jtau pt k else 0))
 
-theorem jEP_closed (e : Env K) (hj : e.o.join = .bevel ∨ e.o.join = .miter)
+theorem jEP_closed (e : Env K)
     (hs0 : ∀ x : K, 0 ≤ x → 0 ≤ Transc.sqrt x) (hs : ∀ x : K, 0 ≤ x → Transc.sqrt x * Transc.sqrt x = x)
     (pt : Nat → P K) (k : Nat)
+    (hj : e.o.join = .bevel ∨ e.o.join = .miter
+      ∨ (e.o.join = .miterClip ∧ keptAt e (pt k) (pt (k + 1)) (pt (k + 1 + 1))))
     (hL0 : 0 < (pt (k + 1) - pt k).sqLen) (hL1 : 0 < (pt (k + 1 + 1) - pt (k + 1)).sqLen)
     (hg : ¬ (eT pt k + eT pt (k + 1)).sqLen < normalEpsilon)
     (hnf : noFoldAt e (pt k) (pt (k + 1)) (pt (k + 1 + 1))) :
@@ -166,17 +178,25 @@ theorem jEP_closed (e : Env K) (hj : e.o.join = .bevel ∨ e.o.join = .miter)
   obtain ⟨hc, hN0, hN1⟩ := normal_closed hs0 hs _ _ hu0 hu1 hg
   have hJ : jEP e pt (k + 1) = joinSidesFw e.ix (linePt e (k, pt k)) (linePt e (k + 1, pt (k + 1)))
       (linePt e (k + 1 + 1, pt (k + 1 + 1))) e.o.miterLimit e.hwFw := rfl
-  have hfold : (fwGeo (linePt e (k, pt k)) (linePt e (k + 1, pt (k + 1))) (linePt e (k + 1 + 1, pt (k + 1 + 1)))
-      e.o.miterLimit e.hwFw).fold = false := by
-    have := fwGeo_congr (prev := linePt e (k, pt k)) (join := linePt e (k + 1, pt (k + 1)))
+  have hcongr := fwGeo_congr (prev := linePt e (k, pt k)) (join := linePt e (k + 1, pt (k + 1)))
       (next := linePt e (k + 1 + 1, pt (k + 1 + 1)))
       (prev' := EP.mk' (pt k) e.hwFw nan e.o.join (.endpoint 0) false)
       (join' := EP.mk' (pt (k + 1)) e.hwFw nan e.o.join (.endpoint 0) false)
       (next' := EP.mk' (pt (k + 1 + 1)) e.hwFw nan e.o.join (.endpoint 0) false) e.o.miterLimit e.hwFw rfl rfl rfl rfl
-    rw [this]
+  have hfold : (fwGeo (linePt e (k, pt k)) (linePt e (k + 1, pt (k + 1))) (linePt e (k + 1 + 1, pt (k + 1 + 1)))
+      e.o.miterLimit e.hwFw).fold = false := by
+    rw [hcongr]
     exact hnf
+  have hlj : (linePt e (k + 1, pt (k + 1))).lineJoin = .bevel ∨ (linePt e (k + 1, pt (k + 1))).lineJoin = .miter
+      ∨ ((linePt e (k + 1, pt (k + 1))).lineJoin = .miterClip
+        ∧ (fwGeo (linePt e (k, pt k)) (linePt e (k + 1, pt (k + 1))) (linePt e (k + 1 + 1, pt (k + 1 + 1)))
+            e.o.miterLimit e.hwFw).unclipped = true) := by
+    rcases hj with h | h | ⟨h, hk⟩
+    · exact Or.inl h
+    · exact Or.inr (Or.inl h)
+    · exact Or.inr (Or.inr ⟨h, by rw [hcongr]; exact hk⟩)
   obtain ⟨c1, c2, c3, c4, c5, c6⟩ := joinSidesFw_closed e.ix (linePt e (k, pt k)) (linePt e (k + 1, pt (k + 1)))
-    (linePt e (k + 1 + 1, pt (k + 1 + 1))) e.o.miterLimit e.hwFw hj rfl rfl hfold
+    (linePt e (k + 1 + 1, pt (k + 1 + 1))) e.o.miterLimit e.hwFw hlj rfl rfl hfold
   rw [← hJ] at c1 c2 c3 c4 c5 c6
   have gpt : (fwGeo (linePt e (k, pt k)) (linePt e (k + 1, pt (k + 1))) (linePt e (k + 1 + 1, pt (k + 1 + 1)))
       e.o.miterLimit e.hwFw).pt = eT pt k := rfl
@@ -251,6 +271,46 @@ theorem jEP_closed (e : Env K) (hj : e.o.join = .bevel ∨ e.o.join = .miter)
       · simp only [sNext, d, Option.getD_none, Option.isSome_none, Bool.false_eq_true, if_false, hz]; exact c2
     · rw [hns, if_pos rfl]; simp only [sPrev, d1, Option.getD_some]; exact hMn0
     · rw [hns, if_pos rfl]; simp only [sNext, d1, Option.getD_some]; exact hMn1
+
+/-- a miter whose squared length `1 + tan²(θ/2)` is at most `(2·miter_limit)²` is kept (lyon's test) -/
+theorem keptAt_of_limit (e : Env K) (hs0 : ∀ x : K, 0 ≤ x → 0 ≤ Transc.sqrt x)
+    (hs : ∀ x : K, 0 ≤ x → Transc.sqrt x * Transc.sqrt x = x) (p j n : P K)
+    (hL0 : 0 < (j - p).sqLen) (hL1 : 0 < (n - j).sqLen)
+    (hg : ¬ ((j - p).sdiv (len (j - p)) + (n - j).sdiv (len (n - j))).sqLen < normalEpsilon)
+    (hjn : e.o.join = .miter ∨ e.o.join = .miterClip)
+    (hlim : 1 + (((j - p).sdiv (len (j - p))).cross ((n - j).sdiv (len (n - j)))
+        / (1 + ((j - p).sdiv (len (j - p))).dot ((n - j).sdiv (len (n - j)))))
+        * (((j - p).sdiv (len (j - p))).cross ((n - j).sdiv (len (n - j)))
+        / (1 + ((j - p).sdiv (len (j - p))).dot ((n - j).sdiv (len (n - j)))))
+      ≤ e.o.miterLimit * e.o.miterLimit * 4) : keptAt e p j n := by
+  have hu0 := (sdiv_unit hs0 hs _ hL0).2
+  have hu1 := (sdiv_unit hs0 hs _ hL1).2
+  obtain ⟨hc, hN0, hN1⟩ := normal_closed hs0 hs _ _ hu0 hu1 hg
+  set t0 := (j - p).sdiv (len (j - p)) with ht0
+  set t1 := (n - j).sdiv (len (n - j)) with ht1
+  obtain ⟨τ, hτ⟩ : ∃ τ, τ = t0.cross t1 / (1 + t0.dot t1) := ⟨_, rfl⟩
+  rw [← hτ] at hN0 hlim
+  have hsq : (computeNormal t0 t1).sqLen = 1 + τ * τ := by
+    rw [hN0]; simp only [perp, geom] at hu0 ⊢; linear_combination (1 + τ * τ) * hu0
+  have hsqn : (-computeNormal t0 t1).sqLen = 1 + τ * τ := by
+    rw [← hsq]; simp only [geom]; ring
+  have hnot : ∀ v : P K, v.sqLen = 1 + τ * τ → miterLimitIsExceeded v e.o.miterLimit = false := by
+    intro v hv
+    unfold miterLimitIsExceeded
+    refine decide_eq_false ?_
+    rw [hv]
+    have : (four : K) = 4 := by simp only [geom]; norm_num
+    rw [this]
+    exact not_lt.mpr hlim
+  unfold keptAt fwGeo
+  simp only [EP.mk']
+  have hlj : (e.o.join == Lyon.StrokeQuad.Join.miter || e.o.join == Lyon.StrokeQuad.Join.miterClip) = true := by
+    rcases hjn with h | h <;> rw [h] <;> rfl
+  rw [hlj]
+  simp only [Bool.true_and, Bool.not_eq_true', ← ht0, ← ht1]
+  split_ifs
+  · exact hnot _ hsqn
+  · exact hnot _ hsq
 
 /-! ## the cap corners in closed form -/
 
